@@ -19,9 +19,11 @@ Clause map (theorems are about the ports `Utf8.lean` (= `ts_decode_utf8`/`U8_NEX
   `decode_prefix_stable`, `decode_local` (the decoder port is local: ≤ 4 bytes, prefix-stable).
   `chars_chunk_dep_witness`: without the proviso it is false (`€` in 1-byte chunks is three errors)
   — genuine finding C09-short-chunk-at-char-start.
-  OPEN `chars_chunk_indep`: the same for the whole sequence `(offset, code point, size)` produced by
-  `start`/`advance` (needs the invariant "cached chunk is a prefix of the text at `chunk_start`"
-  through `do_advance`; the per-character statement above is its inductive step).
+  `chars_chunk_indep`, `chars_chunk_indep_two`: the same for the WHOLE sequence `(offset, code point,
+  size)`, by induction over repeated advance with the invariant "cached chunk is a prefix of the text
+  at `chunk_start`", for the chunk logic `coreChars` (fetch / decode with retry / advance by size).
+  OPEN `lexStream_eq_coreChars`: that the full port (`start`/`advance` with ranges, columns, BOM skip
+  and the ASCII fast path) produces that same sequence — checked by the driver on every chunk drive.
   OPEN `fastpath_eq`, `utf16_utf8_same_chars`, `column_cache_eq` (DESIGN §7).
 * UTF-16 delivery, parser history, logger, cancellation + resume/reset → no model of `TSParser`;
   decided per real case by the Lean judge on full dumps (implementation vs implementation).
@@ -97,6 +99,82 @@ theorem lookahead_chunk_indep (text : List Nat) (read : Read) (pos : Nat) (bytes
         have e := (decode_local (b0 :: bt) (text.drop pos) ⟨t, ht⟩).2 herr
         rw [e]
         simp [norm, herr]
+
+/-- `chars_chunk_indep` (whole sequence, for the chunk logic of the lexer port): for every text
+and every chunking of it that satisfies `WholeChar`, from any offset and any cache state that is
+empty or a prefix of the text at `chunk_start`, the sequence of `(offset, code point or error,
+size)` produced by fetch / decode-with-retry / advance-by-size equals the reference sequence of
+the text decoded in one piece — hence it is the same for any two such chunkings
+(`chars_chunk_indep_two`).  `coreChars` is the chunk logic of `Lexer.doAdvance`/`getLookahead`
+without ranges, columns and the ASCII fast path; that `coreChars` and the full port `lexStream`
+produce the same sequence is checked by the driver on every chunk drive (`core=ok`), it is not a
+theorem (OPEN: `lexStream_eq_coreChars`, i.e. `fastpath_eq` + the default-range case of `skipL`). -/
+theorem chars_chunk_indep (text : List Nat) (read : Read)
+    (hch : ChunkingOf text read) (hw : WholeChar text read) :
+    ∀ (fuel pos : Nat) (c : Cache), CacheOK text c →
+      coreChars read fuel pos c = refChars text fuel pos := by
+  intro fuel
+  induction fuel with
+  | zero => intro pos c _; simp [coreChars, refChars]
+  | succ fuel ih =>
+    intro pos c hc
+    unfold coreChars refChars
+    simp only
+    -- the cache after `fetch`
+    have hf : CacheOK text (fetch read pos c) ∧
+        ((fetch read pos c).chunk = [] → text.length ≤ pos) ∧
+        ((fetch read pos c).chunk ≠ [] → pos < text.length ∧ (fetch read pos c).cs ≤ pos ∧
+          pos < (fetch read pos c).cs + (fetch read pos c).chunk.length) := by
+      unfold fetch
+      split
+      · by_cases hp : pos < text.length
+        · have := hch.1 pos hp
+          exact ⟨Or.inr this.2, fun h => absurd h this.1, fun _ => ⟨hp, Nat.le_refl _, by
+            have : (read pos).length ≠ 0 := by simpa using this.1
+            simp; omega⟩⟩
+        · have := hch.2 pos (by omega)
+          exact ⟨Or.inl this, fun _ => by omega, fun h => absurd this h⟩
+      · rename_i hin
+        refine ⟨hc, fun h => ?_, fun h => ?_⟩
+        · simp [h] at hin; omega
+        · rcases hc with h0 | hpre
+          · exact absurd h0 h
+          · have hlen : c.cs + c.chunk.length ≤ text.length := by
+              obtain ⟨t, ht⟩ := hpre
+              have := congrArg List.length ht
+              simp at this; omega
+            exact ⟨by omega, by omega, by omega⟩
+    generalize fetch read pos c = c1 at hf ⊢
+    obtain ⟨hok, hemp, hne⟩ := hf
+    by_cases he : c1.chunk = []
+    · have := hemp he
+      simp [he, this]
+    · obtain ⟨hp, h1, h2⟩ := hne he
+      have hnp : ¬ pos ≥ text.length := by omega
+      have hise : c1.chunk.isEmpty = false := by cases hcc : c1.chunk <;> simp_all
+      simp only [hise, hnp, Bool.false_eq_true, if_false]
+      rcases hok with h0 | hpre
+      · exact absurd h0 he
+      · obtain ⟨hb1, hb2⟩ := drop_prefix c1.chunk text c1.cs pos hpre h1 h2
+        have key := lookahead_chunk_indep text read pos _ hch (hw pos hp) hb2 hb1
+        have k1 := (Prod.mk.inj key).1
+        have k2 := (Prod.mk.inj key).2
+        rw [k1, k2]
+        congr 1
+        apply ih
+        rcases decodeAt_chunk read (c1.chunk.drop (pos - c1.cs)) pos with hn | hs
+        · rw [hn]; exact Or.inr hpre
+        · rw [hs]; exact Or.inr (hch.1 pos hp).2
+
+
+/-- Any two chunkings of the same text that satisfy `WholeChar` give the same character sequence. -/
+theorem chars_chunk_indep_two (text : List Nat) (r1 r2 : Read)
+    (h1 : ChunkingOf text r1) (w1 : WholeChar text r1) (h2 : ChunkingOf text r2) (w2 : WholeChar text r2)
+    (fuel : Nat) : coreChars r1 fuel 0 ⟨0, []⟩ = coreChars r2 fuel 0 ⟨0, []⟩ := by
+  rw [chars_chunk_indep text r1 h1 w1 fuel 0 _ (Or.inl rfl), chars_chunk_indep text r2 h2 w2 fuel 0 _ (Or.inl rfl)]
+
+example : let text := [0x61, 0xe2, 0x82, 0xac, 0x62]
+    coreChars (fun i => (text.drop i).take 3) 9 0 ⟨0, []⟩ = [(0, 0x61, 1), (1, 0x20ac, 3), (4, 0x62, 1)] := by decide
 
 /-- Non-vacuity: `a€b`, chunks of three bytes, at the start of `€`. -/
 example : let text := [0x61, 0xe2, 0x82, 0xac, 0x62]
